@@ -6,11 +6,10 @@ _c01 = importlib.util.module_from_spec(_spec); _spec.loader.exec_module(_c01)
 PROP = dict(
     title="Decoding arbitrary bytes never panics and reaches a fixed point",
     family="codec", harness="codec", run_vo="Run/Codec.vo",
-    theorems=["C02_fixpoint", "C02_decode_types", "C02_nonvacuous"],
+    theorems=["C02_fixpoint", "C02_total", "C02_decode_types", "C02_nonvacuous"],
     open_statements=[
         "never panics (runtime half of the statement): a Rust panic/abort is not expressible in the model; PARTIAL - exercised only by the guarded mutation stream "
         "(catch_unwind in-process; decodes with huge length prefixes run in a child process so an allocation abort is observed as a non-zero exit). This is testing, not proof.",
-        "C02_never_panics_statement (model analogue: dec never returns the model-only error ModelStuck) is stated as a Definition and not proved; every correspondence case checks it at run time",
     ],
     translators=["schemas"],
     trusted_base=_c01.CODEC_TRUSTED + [
@@ -30,7 +29,7 @@ PROP = dict(
                 "value for ANY byte string, the consumed prefix is exactly as long as the value's encoding, the value is well-formed (so the C01 round trip applies to it), carries "
                 "no erased field, re-encodes, and decodes back to itself with nothing left - for Transaction, Input, Output, Receipt and every other C01 type. "
                 "Never-panics half: PARTIAL, runtime property, exercised by a guarded mutation stream against the real decoders on every check (testing, not proof)."),
-    level_note=("Proved: C02_fixpoint (all byte strings, all protocol types), Closed under the global context. Not proved / not expressible: absence of Rust panics and aborts (partial: "
+    level_note=("Proved: C02_fixpoint and C02_total (all byte strings, all protocol types), Closed under the global context. Not proved / not expressible: absence of Rust panics and aborts (partial: "
                 "guarded differential run only). Observation recorded in evidence notes: a length prefix up to VEC_DECODE_LIMIT = 100 Mi ELEMENTS reserves 100 Mi * size_of::<T>() bytes "
                 "(Input: 184 B => ~19 GB virtual) before the first element is decoded; on this host the reservation succeeds lazily and decoding fails with BufferIsTooShort."),
     technique="Coq proof (decoder soundness: consumed length, wf of the result, fixed point) + translator + guarded differential mutation run",
